@@ -1,6 +1,7 @@
 package main
 
 import (
+	"fmt"
 	"go/ast"
 	"go/token"
 	"go/types"
@@ -23,6 +24,7 @@ var c03NilExempt = map[string]string{}
 func checkMayNil(c *Check) {
 	L := c.L
 	r := c.Rule("R3.3", "results of productions that may be nil are nil-tested before use as receiver/field base", 5)
+	checkWalkDirCallbacks(c, r)
 	pp := L.ByRel["src/parser"]
 	info := pp.TypesInfo
 	nillable := func(t types.Type) bool {
@@ -441,5 +443,110 @@ func walkUnit(body *ast.BlockStmt, f func(n ast.Node)) {
 		}
 		f(n)
 		return true
+	})
+}
+
+// R3.3c: callbacks of filepath.WalkDir / fs.WalkDir receive d == nil together with a non-nil err when the root cannot be
+// read (missing directory, a file in the path). Every use of d must be reached only when err is nil, d was tested, or the
+// entry is known not to be the root.
+func checkWalkDirCallbacks(c *Check, r *Rule) {
+	L := c.L
+	n := 0
+	L.ForEachFunc(c03Pkgs, func(fi *FuncInfo) {
+		info := fi.Pkg.TypesInfo
+		ast.Inspect(fi.Decl.Body, func(x ast.Node) bool {
+			call, ok := x.(*ast.CallExpr)
+			if !ok || len(call.Args) != 2 {
+				return true
+			}
+			fn := Callee(info, call)
+			if fn == nil || fn.Name() != "WalkDir" || fn.Pkg() == nil || (fn.Pkg().Path() != "path/filepath" && fn.Pkg().Path() != "io/fs") {
+				return true
+			}
+			fl, ok := call.Args[1].(*ast.FuncLit)
+			if !ok || len(fl.Type.Params.List) < 1 {
+				return true
+			}
+			var params []*ast.Ident
+			for _, f := range fl.Type.Params.List {
+				params = append(params, f.Names...)
+			}
+			if len(params) != 3 {
+				return true
+			}
+			pathObj, dObj, errObj := info.Defs[params[0]], info.Defs[params[1]], info.Defs[params[2]]
+			root := types.ExprString(call.Args[0])
+			if fn.Pkg().Path() == "io/fs" {
+				root = types.ExprString(call.Args[1])
+			}
+			isObj := func(e ast.Expr, o types.Object) bool {
+				id, ok := ast.Unparen(e).(*ast.Ident)
+				return ok && o != nil && info.Uses[id] == o
+			}
+			facts := func(cond ast.Expr, truth bool) uint32 {
+				be, ok := ast.Unparen(cond).(*ast.BinaryExpr)
+				if !ok || (be.Op != token.EQL && be.Op != token.NEQ) {
+					return 0
+				}
+				eq := (be.Op == token.EQL) == truth // on this edge the two sides are equal
+				switch {
+				case isObj(be.X, errObj) && info.Types[be.Y].IsNil(), isObj(be.Y, errObj) && info.Types[be.X].IsNil():
+					if eq {
+						return 1 // err == nil
+					}
+				case isObj(be.X, dObj) && info.Types[be.Y].IsNil(), isObj(be.Y, dObj) && info.Types[be.X].IsNil():
+					if !eq {
+						return 1 // d != nil
+					}
+				case isObj(be.X, pathObj) && types.ExprString(be.Y) == root, isObj(be.Y, pathObj) && types.ExprString(be.X) == root:
+					if !eq {
+						return 1 // not the root entry (the only call with a nil entry is the one for the root)
+					}
+				}
+				return 0
+			}
+			g := L.CFGBody(fi.Pkg, fl.Body)
+			mf := &mustFlow{G: g, Init: 0,
+				Transfer: func(n ast.Node, s uint32) uint32 { return s },
+				Edge: func(b *cfg.Block, i int, s uint32) uint32 {
+					if len(b.Nodes) == 0 {
+						return s
+					}
+					if cond, ok := b.Nodes[len(b.Nodes)-1].(ast.Expr); ok {
+						return s | facts(cond, i == 0)
+					}
+					return s
+				}}
+			mf.Run()
+			for _, b := range g.Blocks {
+				if !b.Live {
+					continue
+				}
+				for i, nd := range b.Nodes {
+					ast.Inspect(nd, func(y ast.Node) bool {
+						if _, isLit := y.(*ast.FuncLit); isLit {
+							return false
+						}
+						sel, ok := y.(*ast.SelectorExpr)
+						if !ok || !isObj(sel.X, dObj) {
+							return true
+						}
+						n++
+						key := L.QName(fi.Obj) + "|WalkDir callback uses " + params[1].Name + "." + sel.Sel.Name
+						if n > 1 {
+							key += fmt.Sprintf(" #%d", n)
+						}
+						// a condition block's own later operands are covered by the edge facts of the earlier ones; within a block the state is the block's
+						if mf.StateAt(b, i)&1 != 0 {
+							r.OK(key, sel.Pos(), "reached only for a readable entry (error tested, entry tested, or not the root)")
+						} else {
+							r.Bad(key, sel.Pos(), "the directory entry is used on a path on which neither the error nor the entry was tested and the entry may be the root: for an import of a directory that does not exist (or a path through a file) WalkDir calls the callback with a nil entry and the frontend crashes")
+						}
+						return true
+					})
+				}
+			}
+			return true
+		})
 	})
 }
